@@ -68,12 +68,12 @@ from __future__ import annotations
 import hashlib
 import logging
 import time
-from collections.abc import Callable
+from collections.abc import Callable, Iterable
 from contextvars import ContextVar
 from dataclasses import dataclass, field
 from datetime import datetime
 from io import BytesIO
-from typing import TYPE_CHECKING, Literal, Protocol, runtime_checkable
+from typing import TYPE_CHECKING, Any, Literal, Protocol, runtime_checkable
 
 import pyarrow as pa
 from pyarrow import ipc
@@ -668,14 +668,49 @@ def _fetch_and_resolve(
 # ---------------------------------------------------------------------------
 
 
+def _write_external_stream(
+    sink: Any,
+    schema: pa.Schema,
+    batches: Iterable[tuple[pa.RecordBatch, pa.KeyValueMetadata | None]],
+) -> None:
+    """Write *batches* to *sink* as the one IPC stream an externalised payload consists of.
+
+    Shared by the upload helpers and the size predictions so that the bytes
+    counted against ``max_externalized_response_bytes`` are, by construction,
+    the bytes that get uploaded.
+    """
+    with new_ipc_stream(sink, schema) as writer:
+        for batch, custom_metadata in batches:
+            if custom_metadata is not None:
+                writer.write_batch(batch, custom_metadata=custom_metadata)
+            else:
+                writer.write_batch(batch)
+
+
+def _external_stream_size(
+    schema: pa.Schema,
+    batches: Iterable[tuple[pa.RecordBatch, pa.KeyValueMetadata | None]],
+) -> int:
+    """Return the byte length of the IPC stream :func:`_write_external_stream` produces.
+
+    Written to a ``pa.MockOutputStream``, which counts bytes without keeping
+    them, so measuring a large payload does not hold a second copy of it.
+    """
+    sink = pa.MockOutputStream()
+    _write_external_stream(sink, schema, batches)
+    return int(sink.size())
+
+
 def predict_externalize_bytes_for_collector(out: OutputCollector, config: ExternalLocationConfig) -> int:
     """Predict the external upload size if :func:`maybe_externalize_collector` ran now.
 
-    Returns the data batch's logical buffer size when externalisation
-    would fire (storage configured + threshold met), else ``0``.  The
-    real upload includes IPC framing for log + data batches and may
-    differ slightly; this is a lower-bound estimate suitable for
-    pre-flight cap checks.
+    Returns the size of the IPC stream that would be uploaded (log batches,
+    data batch and framing, before any compression) when externalisation
+    would fire (storage configured + threshold met), else ``0``.  This is the
+    same number :func:`maybe_externalize_collector` reports as uploaded, not
+    the data batch's buffer size: the framing and the log batches travel in
+    the upload too, and a payload that fits the cap without them can exceed
+    it with them.
 
     Used by HTTP dispatch paths to refuse a violating upload BEFORE
     incurring the storage round-trip — the operator's intent in setting
@@ -688,27 +723,40 @@ def predict_externalize_bytes_for_collector(out: OutputCollector, config: Extern
         data_ab = out.data_batch
     except RuntimeError:
         return 0
-    size = data_ab.batch.get_total_buffer_size()
-    if size < config.externalize_threshold_bytes:
+    if data_ab.batch.get_total_buffer_size() < config.externalize_threshold_bytes:
         return 0
-    return size
+    return _external_stream_size(out.output_schema, ((ab.batch, ab.custom_metadata) for ab in out.batches))
 
 
-def predict_externalize_bytes_for_batch(batch: pa.RecordBatch, config: ExternalLocationConfig) -> int:
+def predict_externalize_bytes_for_batch(
+    batch: pa.RecordBatch,
+    config: ExternalLocationConfig,
+    custom_metadata: pa.KeyValueMetadata | None = None,
+) -> int:
     """Predict the external upload size if :func:`maybe_externalize_batch` ran now.
 
     See :func:`predict_externalize_bytes_for_collector` for the rationale.
     Mirrors the threshold logic at ``maybe_externalize_batch``'s decision
-    point so the prediction matches what the upload helper actually does.
+    point and measures the same IPC stream, so the prediction matches what
+    the upload helper actually does.
+
+    Args:
+        batch: The batch that would be externalised.
+        config: ExternalLocation configuration.
+        custom_metadata: Custom metadata that would be written with the batch.
+
+    Returns:
+        The size in bytes of the IPC stream that would be uploaded (before
+        any compression), or ``0`` when the batch would stay inline.
+
     """
     if config.storage is None:
         return 0
     if batch.num_rows == 0:
         return 0
-    size = batch.get_total_buffer_size()
-    if size < config.externalize_threshold_bytes:
+    if batch.get_total_buffer_size() < config.externalize_threshold_bytes:
         return 0
-    return size
+    return _external_stream_size(batch.schema, [(batch, custom_metadata)])
 
 
 def maybe_externalize_collector(
@@ -755,12 +803,7 @@ def maybe_externalize_collector(
 
     # Serialize all batches into one IPC stream
     buf = BytesIO()
-    with new_ipc_stream(buf, out.output_schema) as writer:
-        for ab in out.batches:
-            if ab.custom_metadata is not None:
-                writer.write_batch(ab.batch, custom_metadata=ab.custom_metadata)
-            else:
-                writer.write_batch(ab.batch)
+    _write_external_stream(buf, out.output_schema, ((ab.batch, ab.custom_metadata) for ab in out.batches))
 
     ipc_bytes = buf.getvalue()
     original_bytes: int | None = None
@@ -841,11 +884,7 @@ def maybe_externalize_batch(
 
     # Serialize the single batch as IPC stream
     buf = BytesIO()
-    with new_ipc_stream(buf, batch.schema) as writer:
-        if custom_metadata is not None:
-            writer.write_batch(batch, custom_metadata=custom_metadata)
-        else:
-            writer.write_batch(batch)
+    _write_external_stream(buf, batch.schema, [(batch, custom_metadata)])
 
     ipc_bytes = buf.getvalue()
     original_bytes: int | None = None
